@@ -49,6 +49,7 @@ PROPS = {
             "CV.Csr.changes_explained", "CV.Csr.no_recreate", "CV.Csr.no_recreate_postTx",
             "CV.Csr.fee_distribution_preserves_registry", "CV.Csr.regInv_setCSR", "CV.Csr.handleLog_cases",
             "CV.Csr.at_most_one_monitor", "CV.Csr.postTx_idx", "CV.Csr.step_idx", "CV.Csr.changes_explained_monitor",
+            "CV.Csr.new_id_explained", "CV.Csr.no_recreate_monitor", "CV.Csr.inert_preserves_registry_monitor",
         ],
         comps={"outcome", "registry"},
         assumptions=_CSR_ASSUME,
